@@ -324,6 +324,9 @@ class ExprMixin:
         if isinstance(v, SFunc) and v.how == 'builtin' and v.a[0] in ('dict', 'list', 'set'):
             return [(SFunc('classattr', v.a[0], attr), st)]
         if isinstance(v, SFunc) and v.how == 'module':
+            mc = MODULE_CONSTANTS.get('%s.%s' % (v.a[0], attr))
+            if mc is not None:
+                return [(SInt(mc), st)]
             return [(SFunc('modfunc', v.a[0], attr), st)]
         if isinstance(v, SFunc) and v.how == 'modfunc':
             return [(SFunc('modfunc', '%s.%s' % (v.a[0], v.a[1]), attr), st)]
@@ -742,6 +745,7 @@ class ExprMixin:
         return [(r, st2)]
 
 
+MODULE_CONSTANTS = {'os.SEEK_SET': 0, 'os.SEEK_CUR': 1, 'os.SEEK_END': 2}      # documented POSIX values
 BUILTIN_NAMES = {'super', 'hash', 'len', 'range', 'sum', 'min', 'max', 'int', 'float', 'isinstance', 'callable', 'getattr',
                  'iter', 'next', 'list', 'sorted', 'abs', 'bool', 'tuple', 'dict', 'set', 'hasattr', 'enumerate',
                  'zip', 'reversed', 'str', 'repr', 'type', 'id', 'print', 'object', 'frozenset', 'bytes'}
